@@ -11,6 +11,6 @@ cd /verif
 VERIF_SEED=${VERIF_SEED:-1} timeout ${SEED_TIMEOUT:-900} ./check.sh $ID $TIER > /tmp/seedtest.$ID.out 2>&1
 rc=$?
 cd /repo && git checkout -- . && git clean -fdq
-grep -E "^(VIOLATION|KNOWN-FINDING|ERROR)" /tmp/seedtest.$ID.out | head -5
-grep -E "^\[$ID\]   [A-Z0-9]+/" /tmp/seedtest.$ID.out | head -5
+grep -aE "^(VIOLATION|KNOWN-FINDING|ERROR)" /tmp/seedtest.$ID.out | head -5
+grep -aE "^\[$ID\]   [A-Z0-9]+/" /tmp/seedtest.$ID.out | head -5
 echo "rc=$rc"
